@@ -105,6 +105,7 @@ class ArrObj:
 
     def clone(self):
         c = ArrObj.__new__(ArrObj)
+        c.__dict__.update(self.__dict__)      # keeps ghost attributes (is_bytes, raw_size, zeroed, ...)
         c.id, c.elem, c.length, c.mode, c.name, c.freed = self.id, self.elem, self.length, self.mode, self.name, self.freed
         c.leaf_types = self.leaf_types
         if self.mode == "list":
